@@ -1,6 +1,7 @@
 import RosuModel.Model.PerfCalc
 import Mathlib.Analysis.SpecialFunctions.Pow.Real
 import Mathlib.Analysis.SpecialFunctions.Log.Basic
+import Mathlib.Analysis.SpecialFunctions.Complex.Arg
 import Mathlib.Tactic.Linarith
 import Mathlib.Tactic.Positivity
 import Mathlib.Tactic.NormNum
@@ -46,6 +47,9 @@ noncomputable instance instPPOpsReal : PPOps ℝ where
   exp := Real.exp
   sqrt := Real.sqrt
   cbrt x := if 0 ≤ x then x ^ (1 / 3 : ℝ) else -((-x) ^ (1 / 3 : ℝ))
+  sin := Real.sin
+  atan2 y x := Complex.arg ⟨x, y⟩
+  r32 x := x
   pi := Real.pi
   posInf := 0
   negInf := 0
@@ -80,6 +84,8 @@ noncomputable instance instPPOpsReal : PPOps ℝ where
 @[simp] theorem r_exp (a : ℝ) : PPOps.exp a = Real.exp a := rfl
 @[simp] theorem r_sqrt (a : ℝ) : PPOps.sqrt a = Real.sqrt a := rfl
 @[simp] theorem r_cbrt (a : ℝ) : PPOps.cbrt a = if 0 ≤ a then a ^ (1 / 3 : ℝ) else -((-a) ^ (1 / 3 : ℝ)) := rfl
+@[simp] theorem r_sin (a : ℝ) : PPOps.sin a = Real.sin a := rfl
+@[simp] theorem r_r32 (a : ℝ) : PPOps.r32 a = a := rfl
 @[simp] theorem r_pi : (PPOps.pi : ℝ) = Real.pi := rfl
 @[simp] theorem r_isPosInf (a : ℝ) : PPOps.isPosInf a = false := rfl
 @[simp] theorem r_isNegInf (a : ℝ) : PPOps.isNegInf a = false := rfl
